@@ -20,6 +20,8 @@ import (
 //   c13     model tie + monitor: all ordered receiver/operand pairs of {b32,b64,ts32,ts64} with matching width
 //   x13     monitor only: what the model does not characterise exactly — chunks that have been completely full (run
 //           containers) under iterate-while-remove, and the aftermath of roaring's container-sharing native Xor
+//   heap13  model tie (Lean suite c13heap: roaring CONTAINER IDENTITY, Model/C13Roaring) + monitor: plain bitmaps, add/remove/
+//           xor/slice only — receiver and operand keep being used after the native Xor, so the aliasing it creates is compared
 //   conc13  monitor + model: N goroutines on one wrapper, commutative op mixes (thorough tier; -race variant)
 //
 // Line protocol: see lean/Driver/C13.lean. Every call runs in its own goroutine; a call whose goroutine is parked
@@ -31,6 +33,7 @@ func init() {
 	register("c13", c13Suite{"c13"})
 	register("x13", c13Suite{"x13"})
 	register("conc13", c13Suite{"conc13"})
+	register("heap13", c13Suite{"heap13"})
 }
 
 // ---------------------------------------------------------------------------------------------- runner
@@ -444,6 +447,45 @@ func c13Step[T number](r *c13Runner, m map[string]*c13Prov[T], bits int, t []str
 		np := &c13Prov[T]{d: c, wrapped: src.wrapped}
 		m[t[1]] = np
 		return "ok " + c13Obs(np), true
+	case len(t) >= 3 && t[0] == "comm":
+		// comm <v> or:a,b and:c …  (commutative.go)
+		first := strings.SplitN(t[2], ":", 2)
+		if len(first) != 2 || get(strings.Split(first[1], ",")[0]) == nil {
+			return "", false
+		}
+		vs, ok := c13ParseVals[T](t[1:2], bits)
+		if !ok {
+			return "bad-op", true
+		}
+		var cd cardinality.CommutativeDuplexes[T]
+		for _, tok := range t[2:] {
+			kv := strings.SplitN(tok, ":", 2)
+			if len(kv) != 2 {
+				return "bad-op", true
+			}
+			var ds []cardinality.Duplex[T]
+			for _, n := range strings.Split(kv[1], ",") {
+				p := get(n)
+				if p == nil || p.dead {
+					return "bad-op", true
+				}
+				ds = append(ds, p.d)
+			}
+			switch kv[0] {
+			case "or":
+				cd.Or(cardinality.CommutativeOr(ds[0]).Or(ds[1:]...))
+			case "and":
+				cd.And(cardinality.CommutativeOr(ds...))
+			default:
+				return "bad-op", true
+			}
+		}
+		var res bool
+		if !c13Call(func() { res = cd.Contains(vs[0]) }) {
+			return "deadlock", true
+		}
+		r.stats.Inc("op.comm")
+		return fmt.Sprintf("%v", res), true
 	case len(t) == 3 && t[0] == "nd":
 		p := get(t[2])
 		if p == nil {
@@ -908,6 +950,24 @@ func (g *c13Gen) randomCase(bits int, rk, ok string, big bool) {
 			name[cn] = cn
 			kind[cn] = kind[x]
 		case c < 19:
+			if r.Bool() {
+				// commutative.go: membership over or/and groups of the case's providers
+				toks := []string{}
+				for k := 1 + r.Intn(3); k > 0; k-- {
+					grp := Pick(r, []string{"or", "or", "and"})
+					if len(toks) == 0 {
+						grp = "or"
+					}
+					n1, n2 := name[Pick(r, roles)], name[Pick(r, roles)]
+					if r.Bool() {
+						toks = append(toks, grp+":"+n1)
+					} else {
+						toks = append(toks, grp+":"+n1+","+n2)
+					}
+				}
+				g.line("comm %d %s", Pick(r, pool), strings.Join(toks, " "))
+				break
+			}
 			g.line("nd %s %s", Pick(r, c13Ops), name[x])
 		default:
 			if r.Chance(1, 6) {
@@ -1211,6 +1271,86 @@ func (c13Suite) genAlias(g *c13Gen, tier string) {
 	}
 }
 
+func indexOf(xs []string, x string) int {
+	for i, v := range xs {
+		if v == x {
+			return i
+		}
+	}
+	return 0
+}
+
+// plain bitmaps that keep being used after native in-place Xors: tied to the container-identity model (Lean suite c13heap)
+func (c13Suite) genHeap(g *c13Gen, tier string) {
+	r := g.rng
+	n, dense := 300, 12
+	if tier == "thorough" {
+		n, dense = 12000, 200
+	}
+	for i := 0; i < n+dense; i++ {
+		bits := 32
+		if r.Bool() {
+			bits = 64
+		}
+		big := i >= n && bits == 32
+		g.begin(fmt.Sprintf("heap b%d dense=%v", bits, big))
+		names := []string{"a", "b", "c"}[:2+r.Intn(2)]
+		for _, nm := range names {
+			g.line("new %s b%d", nm, bits)
+		}
+		// small universe: few keys, few low parts, so that keys are shared / missing / emptied all the time
+		var keys []uint64
+		if bits == 64 {
+			for _, k := range []uint64{0, 1, 2, 3, 5} {
+				keys = append(keys, k<<32, k<<32+65536)
+			}
+		} else {
+			for _, k := range []uint64{0, 1, 2, 3, 5} {
+				keys = append(keys, k<<16)
+			}
+		}
+		val := func() uint64 { return Pick(r, keys) + uint64(r.Intn(4)) }
+		for _, nm := range names {
+			vs := make([]uint64, 1+r.Intn(6))
+			for j := range vs {
+				vs[j] = val()
+			}
+			g.line("add %s %s", nm, c13Join(vs))
+		}
+		if big {
+			// around the array/bitmap container threshold: array ⊕ bitmap is where the 32-bit ixor updates the operand
+			for k := 1 + r.Intn(2); k > 0; k-- {
+				g.line("addrange %s %d %d %d", Pick(r, names), Pick(r, keys)+uint64(r.Intn(50)), Pick(r, []int{4090, 4096, 4097, 4100, 4300}), Pick(r, []int{1, 1, 2}))
+			}
+		}
+		nops := 6 + r.Intn(12)
+		if big {
+			nops = 4 + r.Intn(5)
+		}
+		for j := 0; j < nops; j++ {
+			x := Pick(r, names)
+			switch c := r.Intn(10); {
+			case c < 4:
+				y := Pick(r, names)
+				if y == x && r.Chance(4, 5) {
+					y = names[(r.Intn(len(names)-1)+1+indexOf(names, x))%len(names)] // mostly a distinct operand
+				}
+				g.line("xor %s %s", x, y)
+			case c < 7:
+				g.line("add %s %d", x, val())
+			case c < 9:
+				g.line("remove %s %d", x, val())
+			default:
+				g.line("card %s", x)
+			}
+			for _, nm := range names {
+				g.line("slice %s", nm)
+			}
+		}
+		g.stats.Inc("heap_cases")
+	}
+}
+
 // N goroutines on one wrapper; op mixes whose result does not depend on the order
 func (c13Suite) genConc(g *c13Gen, tier string) {
 	r := g.rng
@@ -1317,5 +1457,7 @@ func (s c13Suite) Gen(rng *Rng, tier string, w *bufio.Writer, stats *Stats) {
 		s.genAlias(g, tier)
 	case "conc13":
 		s.genConc(g, tier)
+	case "heap13":
+		s.genHeap(g, tier)
 	}
 }
